@@ -56,6 +56,87 @@ def gen_defs(rng, mode):
     return out
 
 
+IDENT_POOL = ["A", "AB", "X1", "ABC", "Z9", "Q", " CT", " &X", "R "]
+# offsets at which buffered readers and writers of the interpreter and of the C library change state: multiples of the
+# interpreter's own buffer size, and the usual powers of two
+BOUNDARIES = [io.DEFAULT_BUFFER_SIZE, io.DEFAULT_BUFFER_SIZE, io.DEFAULT_BUFFER_SIZE, 2 * io.DEFAULT_BUFFER_SIZE, 2 * io.DEFAULT_BUFFER_SIZE,
+              3 * io.DEFAULT_BUFFER_SIZE, 4 * io.DEFAULT_BUFFER_SIZE, 512, 1024, 4096, 4096, 16384, 32768]
+
+
+def rec_width(rd):
+    return rd["digits"] + sum(fd["size"] for fd in rd["fields"])
+
+
+def expand_value(v):
+    """["strx", unit, count] is the literal unit * count (long contents are kept in this short form inside the case)"""
+    if v is not None and v[0] == "strx":
+        return ["str", v[1] * v[2]]
+    return v
+
+
+def gen_long_stream(rng):
+    """a stream of 2-8 records of 1-3 types that is several KiB long: one record type carries a literal field of some KiB,
+    and (binary) its width is chosen so that a later record starts within an identifier's width of a buffer-size boundary.
+    The data are plainly in the domain by construction (no model run for these cases): integers inside the field's range,
+    floats that every width represents exactly, literals without blanks at either end, no missing values."""
+    mode = "binary" if rng.random() < 0.75 else "pos"
+    n = rng.randint(1, 3)
+    idents = rng.sample(IDENT_POOL, n)
+    if rng.random() < 0.08:
+        idents[rng.randrange(n)] = ""
+    defs = []
+    for ident in idents:
+        digits = rng.randint(len(ident), len(ident) + 3)
+        fs, pos = [], digits
+        for _ in range(rng.randint(0 if mode == "binary" else 1, 3)):
+            if mode == "binary":
+                k = rng.choice(["int", "float", "lit"])
+                fd = {"k": k, "size": rng.choice([2, 4, 8]) if k != "lit" else rng.randint(1, 6), "start": pos}
+                if k == "float":
+                    fd.update({"dd": 2, "fmt": "F", "sep": "."})
+            else:
+                k = rng.choice(["int", "lit"])
+                fd = {"k": k, "size": rng.randint(1, 9) if k == "int" else rng.randint(1, 12), "start": pos}
+            fs.append(fd)
+            pos += fd["size"]
+        defs.append({"ident": ident, "digits": digits, "fields": fs, "delim": None})
+    nrec = rng.randint(2, 8)
+    order = [rng.randrange(n) for _ in range(nrec)]
+    t = rng.randint(1, nrec - 1)          # the record whose start is placed
+    j = order[t - 1]                      # the type that is made long
+    c = order[:t].count(j)
+    bound = rng.choice(BOUNDARIES)
+    before = sum(rec_width(defs[i]) + (0 if mode == "binary" else 1) for i in order[:t])
+    dt = defs[order[t]]["digits"]
+    ks = list(range(-1, dt + 2))
+    rng.shuffle(ks)
+    k = next((k for k in ks if (bound - k - before) % c == 0), (bound - before) % c)
+    wide = max(1, (bound - k - before) // c)
+    defs[j]["fields"].append({"k": "lit", "size": wide, "start": rec_width(defs[j])})
+    for rd in defs:
+        if not rd["fields"]:
+            rd["fields"].append({"k": "lit", "size": rng.randint(1, 6), "start": rd["digits"]})
+        if len(rd["fields"]) > 1 and rng.random() < 0.3:
+            rng.shuffle(rd["fields"])
+    recs = []
+    for i in order:
+        vals = []
+        for fd in defs[i]["fields"]:
+            sz = fd["size"]
+            if fd["k"] == "int":
+                v = ["int", rng.randint(-2 ** (8 * sz - 1), 2 ** (8 * sz - 1) - 1) if mode == "binary" else rng.randint(0, 10 ** sz - 1)]
+            elif fd["k"] == "float":
+                v = ["float", fl.f2b(rng.randint(-2048, 2048) / 4 + 0.0)]
+            elif sz > 12:
+                unit = "".join(rng.choice("abcXYZ019") for _ in range(rng.randint(1, 3)))
+                v = ["strx", unit, sz // len(unit) if rng.random() < 0.7 else rng.randint(1, sz // len(unit))]
+            else:
+                v = ["str", "".join(rng.choice("abcXYZ019.-_/") for _ in range(rng.randint(1, sz)))]
+            vals.append(v)
+        recs.append([i, vals])
+    return {"mode": mode, "defs": defs, "recs": recs, "long": True}
+
+
 class CHECK(Check):
     pid = "C10"
     entry = "REGSTREAM"
@@ -96,9 +177,24 @@ class CHECK(Check):
                     vals.append(v)
                 recs.append([i, vals])
             yield {"mode": mode, "defs": defs, "recs": recs}
+        for _ in range(120 if tier == "quick" else 1500):
+            yield gen_long_stream(rng)
+
+    def comparable(self, case):
+        return not case.get("long")
+
+    def classify(self, case):
+        return {"long_stream_" + case["mode"]: 1} if case.get("long") else {"stream_" + case["mode"]: 1}
+
+    def shrink(self, case):
+        if len(case["recs"]) > 1:
+            yield dict(case, recs=case["recs"][:-1])
 
     def impl(self, case):
         mode = case["mode"]
+        long = bool(case.get("long"))
+        if long:
+            case = dict(case, recs=[[i, [expand_value(v) for v in vals]] for i, vals in case["recs"]])
         sto = "BINARY" if mode == "binary" else "TEXT"
         regs = reglib.mk_register_classes(case["defs"])
         buf = io.BytesIO() if mode == "binary" else io.StringIO()
@@ -108,7 +204,7 @@ class CHECK(Check):
                 before = buf.tell()
                 regs[i](data=[fl.py_value(v) for v in vals]).write(buf, sto)
                 c = buf.getvalue()[before:]
-                chunks.append(list(c) if mode == "binary" else c)
+                chunks.append((c.decode("latin-1") if long else list(c)) if mode == "binary" else c)   # long records: one str, a byte per character
                 matches.append(bool(regs[i].matches(c, sto)))
             buf.seek(0)
             reads = []
@@ -117,13 +213,19 @@ class CHECK(Check):
                 r.read(buf, sto)
                 reads.append([[fl.canon_value(x) for x in r.data], buf.tell()])
             file_elems = None
-            if mode == "binary":
+            if mode == "binary" and (not long or self._clear(case)):
                 # the same stream through RegisterFile.read with a peek window of LS bytes
                 F = reglib.mk_file_class(regs, True)
                 try:
-                    with lib.budget(200000):
+                    with lib.budget(200000 + (20 * len(buf.getvalue()) if long else 0)):
                         f = F.read(buf.getvalue(), self.LS)
                         file_elems = reglib.canon_elems(f.data, regs, cap=len(buf.getvalue()) + 5)[1:]
+                except lib.BudgetExceeded:
+                    if not long:
+                        raise
+                    # a long stream whose records are claimed by another type's identifier test (identifier text in data
+                    # columns) is legitimately cut into thousands of short records; the oracle decides whether this one is
+                    file_elems = "budget"
                 except UnicodeDecodeError:
                     # the str identifier test decodes the peeked bytes as UTF-8; numeric payload inside the peek window
                     # may not be valid UTF-8 (DESIGN section 12): such streams cannot be read at file level at all
@@ -180,14 +282,17 @@ class CHECK(Check):
         if "raised" in obs:
             return "write/read raised: %s" % obs["raised"]
         mode = case["mode"]
+        if case.get("long"):
+            case = dict(case, recs=[[i, [expand_value(v) for v in vals]] for i, vals in case["recs"]])
+        chunks = [(c.encode("latin-1") if isinstance(c, str) else bytes(c)) for c in obs["chunks"]] if mode == "binary" else obs["chunks"]
         pos = 0
-        for (i, vals), c, m, (data, tell) in zip(case["recs"], obs["chunks"], obs["matches"], obs["reads"]):
+        for (i, vals), c, m, (data, tell) in zip(case["recs"], chunks, obs["matches"], obs["reads"]):
             rd = case["defs"][i]
             ident, digits = rd["ident"], rd["digits"]
             if not m:
                 return "written register is not recognised by its own type's identifier test"
             if mode == "binary":
-                if bytes(c[:digits]) != ident.ljust(digits).encode():
+                if c[:digits] != ident.ljust(digits).encode():
                     return "identifier is not left-justified in the identifier columns"
                 if len(c) != digits + sum(fd["size"] for fd in rd["fields"]):
                     return "binary record is not identifier-width plus field-width bytes"
@@ -206,20 +311,17 @@ class CHECK(Check):
         if mode == "binary" and obs.get("file_elems") is not None:
             # file-level reading of the stream: when every record is recognised unambiguously by its own identifier in the
             # peek window, the typed elements are exactly the records, in order (nothing dropped, nothing mis-aligned)
-            idents = [rd["ident"] for rd in case["defs"]]
-            clear = not any("ident_pat" in rd for rd in case["defs"]) and all(idents) and len(set(idents)) == len(idents) and all(len(i) <= self.LS for i in idents) and \
-                not any(a != b and a in b.ljust(max(len(a), len(b))) for a in idents for b in idents) and \
-                all(rd["digits"] <= self.LS for rd in case["defs"])
-            if clear:
-                typed = [[e[0], e[1]] for e in obs["file_elems"] if e[0] >= 0]
-                if typed != [[i, vals] for i, vals in case["recs"]] or any(e[0] < 0 for e in obs["file_elems"]):
+            if self._clear(case):
+                fe = obs["file_elems"]
+                typed = None if fe == "budget" else [[e[0], e[1]] for e in fe if e[0] >= 0]
+                if typed != [[i, vals] for i, vals in case["recs"]] or any(e[0] < 0 for e in fe):
                     # identifiers may still collide with data bytes; only flag when the per-record reads were all fine
                     ambiguous = False
-                    stream = sum(obs["chunks"], [])
+                    stream = b"".join(chunks)
                     pos = 0
-                    for (i, vals), c in zip(case["recs"], obs["chunks"]):
+                    for (i, vals), c in zip(case["recs"], chunks):
                         # the peek window at this record's start may reach into the following records
-                        peek = bytes(stream[pos: pos + self.LS]).decode("latin-1")
+                        peek = stream[pos: pos + self.LS].decode("latin-1")
                         pos += len(c)
                         first = next((j for j, rd in enumerate(case["defs"]) if rd["ident"] in peek[: rd["digits"]]), -1)
                         if first != i:
@@ -227,6 +329,13 @@ class CHECK(Check):
                     if not ambiguous:
                         return "reading the stream through RegisterFile.read does not return the written records (dropped or mis-aligned)"
         return None
+
+    def _clear(self, case):
+        """every type has a plain, non-empty identifier of its own that fits the peek window, and none occurs in another's"""
+        idents = [rd["ident"] for rd in case["defs"]]
+        return not any("ident_pat" in rd for rd in case["defs"]) and all(idents) and len(set(idents)) == len(idents) and all(len(i) <= self.LS for i in idents) and \
+            not any(a != b and a in b.ljust(max(len(a), len(b))) for a in idents for b in idents) and \
+            all(rd["digits"] <= self.LS for rd in case["defs"])
 
     def _data_collision(self, case, obs=None):
         """is some written record, by the property's own first-match rule on the peek window, claimed by another type
